@@ -677,6 +677,8 @@ class ReadDTCInformation(BaseService):
                 actual_byte += 2
                 for i in range(number_of_did):
                     remaining_data = response.data[actual_byte:]
+                    if len(remaining_data) < dtc_snapshot_did_size:
+                        raise InvalidResponseException(response, 'Incomplete response from server. Missing DID number and associated data.')
                     snapshot = Dtc.Snapshot()  # One snapshot per DID for convenience.
                     snapshot.record_number = record_number
 
@@ -761,6 +763,8 @@ class ReadDTCInformation(BaseService):
                 # For each DID
                 for i in range(number_of_did):
                     remaining_data = response.data[actual_byte:]
+                    if len(remaining_data) < dtc_snapshot_did_size:
+                        raise InvalidResponseException(response, 'Incomplete response from server. Missing DID and associated data')
                     snapshot = Dtc.Snapshot()  # One snapshot epr DID for convenience
                     snapshot.record_number = record_number
 
